@@ -31,10 +31,10 @@ demo; BASE=$?
 ONBASE=""
 if ! git apply "$SEED/patch.diff" 2>/dev/null; then
   # later repairs touched the same lines: try a three-way merge onto HEAD first
-  if git apply --3way "$SEED/patch.diff" >/dev/null 2>&1 && ! grep -q '^<<<<<<<' *.go cmd/gmars/main.go 2>/dev/null && go build . ./cmd/gmars >/dev/null 2>&1; then
+  if git apply --3way "$SEED/patch.diff" >/dev/null 2>&1 && ! grep -q '^<<<<<<<' *.go cmd/gmars/main.go 2>/dev/null && go build . ./cmd/gmars >/dev/null 2>&1 && go test -vet=off -count=1 . >/dev/null 2>&1 && ! demo; then
     git reset -q
     echo "  (patch merged three-way onto /repo HEAD)"
-  elif git reset -q --hard && git clean -fdq && { git apply --3way "$SEED/patch.diff" >/dev/null 2>&1; python3 "$VERIF_HOME/tools/resolve_theirs.py" *.go cmd/gmars/main.go; gofmt -l . >/dev/null 2>&1; go build . ./cmd/gmars >/dev/null 2>&1; }; then
+  elif git reset -q --hard && git clean -fdq && { git apply --3way "$SEED/patch.diff" >/dev/null 2>&1; python3 "$VERIF_HOME/tools/resolve_theirs.py" *.go cmd/gmars/main.go; gofmt -l . >/dev/null 2>&1; go build . ./cmd/gmars >/dev/null 2>&1 && go test -vet=off -count=1 . >/dev/null 2>&1 && ! demo; }; then
     git reset -q
     echo "  (patch merged three-way onto /repo HEAD; conflicting hunks taken from the seeded change)"
   else
@@ -46,6 +46,7 @@ if ! git apply "$SEED/patch.diff" 2>/dev/null; then
     [ -n "$BASECOMMIT" ] || { echo "SEED $SEED: patch does not apply"; exit 2; }
     git checkout -q --detach "$BASECOMMIT" || { echo "SEED $SEED: base $BASECOMMIT missing"; exit 2; }
     ONBASE=$BASECOMMIT
+    export VERIF_LEGACY=1 # strata that expose defects repaired after this commit are switched off
     for c in $CHECKS; do
       out=$(cd "$VERIF_HOME" && VERIF_REPO="$WT" ./check.sh $c quick 2>&1)
       echo "  baseline $c on $BASECOMMIT: $(echo "$out" | grep "sig=" | sed 's/^ *//' | sort -u | tr '\n' ' ')"
